@@ -34,6 +34,7 @@ var accelShapes = []string{
 	`\w*@x`, `[^,]*,`, `a*b`, `\s*=`, `[ab]*c+d`, `a*?b`, `\w+:`, `(?>a*)b`,
 	`\w+@\w+\.com`, `[\w-]+\s*=\s*\d+`, `[a-z]+ = [0-9]+;`,
 	`[abc]\d`, `\d+x`, `[a-c]+`, `a|b|c`, `ab|.c`, `a|.`, `(?:a|b)c|d`, `a?b`, `(a)?b`, `(?=ab)a.`, `(?=a)\w+`, `(?!b)\w`, `(?<=a)b`,
+	`abab`, `abca\d`, `abab\w`, `aba`, `abcab`, `(?i)abab`,
 	`[ab]{25}c`, `[ab]{21}cd`, `\w{22}x`, `[a-c]{30}`, `a{25}b`, `[a-z]+(?:@|\d+)[a-z]+(?:\.|,)[a-z]+`, `\w+(?:-|\s+)\w+(?:=|\d)\w+`, `[a-z]+(?:x|[0-9]{2})[a-z]+(?:;|y+)z`,
 	`\bab`, `\Bab`, `a{3}`, `a{2,}b`, `(?:ab){2}`, `(?:ab*){2}`, `(ab*)+c`, `[a-c]{2}d`, `é+a`, `a😀b`,
 }
@@ -125,6 +126,13 @@ func accelInputs(r *Rng, p patCase, n int) [][]rune {
 			}
 			out = append(out, append(append(randString(r, []rune{'x', 'a'}, 2), run...), []rune(Pick(r, []string{"c", "cd", "x", "b", "", "cx"}))...))
 		}
+	}
+	// an occurrence of the pattern's letters right after / before a non-ASCII rune and after a partial occurrence
+	if len(lits) >= 2 {
+		full := append([]rune{}, lits...)
+		half := full[:len(full)/2+1]
+		out = append(out, append([]rune("c\u00e9"), full...), append(append(append([]rune{}, full...), []rune(" c\u00e9")...), full...),
+			append(append([]rune{}, full...), []rune("\u00e9c")...), append(append(append([]rune{}, half...), '\u00e9'), full...), append(append([]rune{}, half...), full...))
 	}
 	out = append(out, nil, []rune{lits[0]})
 	return out
